@@ -235,6 +235,15 @@ func (g *TG) Struct(depth int) reflect.Type {
 		maxf = 6
 	}
 	nf := g.R.IntN(maxf + 1)
+	// now and then a wide struct: more fields than a machine word has bits, scalar fields, dense
+	// indexes from a random base in random order
+	wide := g.MaxFields == 0 && g.R.IntN(40) == 0
+	var wideIdx []int
+	if wide {
+		nf = 65 + g.R.IntN(80)
+		wideIdx = g.R.Perm(nf + 8)
+	}
+	wideBase := []int{1, 1, 10, 120, 2040}[g.R.IntN(5)]
 	var fs []reflect.StructField
 	used := map[int]bool{}
 	usedNames := map[string]bool{}
@@ -242,6 +251,9 @@ func (g *TG) Struct(depth int) reflect.Type {
 		idx := fieldIndexes[g.R.IntN(len(fieldIndexes))]
 		if g.R.IntN(6) == 0 {
 			idx = g.R.IntN(5000)
+		}
+		if wide {
+			idx = wideBase + wideIdx[i]
 		}
 		if g.NoIndexZero && (idx == 0 || (idx >= 19000 && idx <= 19999)) {
 			idx = 4
@@ -262,7 +274,12 @@ func (g *TG) Struct(depth int) reflect.Type {
 			continue
 		}
 		used[idx] = true
-		t := g.Type(depth, PosField)
+		var t reflect.Type
+		if wide {
+			t = g.leaf(PosField)
+		} else {
+			t = g.Type(depth, PosField)
+		}
 		opt := g.option(t)
 		tg := fmt.Sprintf(`plenc:"%d%s"`, idx, opt)
 		if g.JSONTags && g.R.IntN(4) == 0 {
